@@ -5,7 +5,8 @@ E2-style exploration over stream histories: a history is a sequence of events fr
   dA   definition message: elements e1 (numeric), e2 (characters), sequence s1 = [e1, e2]
   dB   extends: element e3 (code table), sequence s2 = [1 01 002, e1, e3], sequence s3 = [1 01 000, 031001, e2]
   dB'  REDEFINES e1 (other width / scale / reference)
-  dN   NCEP idiom: 3 60 001 = [1 01 000, 031002] (replication-only: replicates what follows the sequence)
+  dN   NCEP idiom: 3 60 001 = [1 01 000, 031002] (replication-only: replicates what follows the sequence) and
+       3 60 002 = [3 60 001, e4, 3 60 001, 001001] (the idiom used twice inside one defined sequence)
   d0   a definition message with 0 subsets (defines nothing)
   xA xB xS xM xN  data messages over s1+e1 / s2+s3+e3 / standard descriptors / a mix / the NCEP idiom
 concatenated into ONE byte stream and scanned by generate_bufr_message (continue_on_error) after the
@@ -33,6 +34,7 @@ from mc.ref import codec, message, ncep, tables
 PID = 'C20'
 E1, E2, E3, E4 = 48001, 48002, 63200, 52010
 S1, S2, S3, SN = 348001, 348002, 348003, 360001
+SN2 = 360002        # a defined sequence that uses the replication-only sequence twice
 
 WIDTHS = [12, 1, 7, 16, 24]
 SCALES = [1, -1, 0, 2]
@@ -57,13 +59,14 @@ def definitions(ev, e1def):
     if ev == "dB'":
         return ([], [(E1, 'FIRST NEW ELEMENT REDEFINED', 'NUMERIC', 2, 5, 16)], [])
     if ev == 'dN':
-        return ([], [(E4, 'FOURTH NEW ELEMENT', 'NUMERIC', 0, -5, 9)], [(SN, 'REPLICATION ONLY', [101000, 31002])])
+        return ([], [(E4, 'FOURTH NEW ELEMENT', 'NUMERIC', 0, -5, 9)],
+                [(SN, 'REPLICATION ONLY', [101000, 31002]), (SN2, 'USES IT TWICE', [SN, E4, SN, 1001])])
     if ev == 'd0':
         return ([], [(E1, 'MUST NOT BE DEFINED', 'NUMERIC', 0, 0, 3)], [])
     raise ValueError(ev)
 
 
-DATA = {'xA': [S1, E1], 'xB': [S2, S3, E3], 'xS': [1001, 5002, 301001], 'xM': [1001, E1, S1, 5002], 'xN': [SN, E4, 1001, E1]}
+DATA = {'xA': [S1, E1], 'xB': [S2, S3, E3], 'xS': [1001, 5002, 301001], 'xM': [1001, E1, S1, 5002], 'xN': [SN, E4, 1001, SN2, E1]}
 
 
 def build_stream(hist, e1def):
@@ -103,7 +106,7 @@ def build_stream(hist, e1def):
             Bp, Dp = dict(B), dict(D)
             for e in (E1, E2, E3, E4):
                 Bp.setdefault(e, ('PLACEHOLDER', 'NUMERIC', 0, 0, 8))
-            for q, mem in ((S1, [E1, E2]), (S2, [101002, E1, E3]), (S3, [101000, 31001, E2]), (SN, [101000, 31002])):
+            for q, mem in ((S1, [E1, E2]), (S2, [101002, E1, E3]), (S3, [101000, 31001, E2]), (SN, [101000, 31002]), (SN2, [SN, E4, SN, 1001])):
                 Dp.setdefault(q, mem)
             cnt[0] = 0
             buf, subs, notes, nb = codec.encode(Bp, Dp, descs, 1, False, ch)
